@@ -279,6 +279,23 @@ def run(tier):
             v.finding("lexrun:" + class_string(pc), "a long run of %r: %s" % (pc, r.get("panic") or r.get("crash") or r), {"text": pc * 50, "minimal": pc, "detail": str(r)[:300]})
         else:
             lex_runs_ok += 1
+    # many diagnostics on ONE long line through the shipped binary (reporting must not need memory in proportion to
+    # diagnostics x line length)
+    naija = common.build_naija()
+    import subprocess
+    import tempfile
+    with tempfile.TemporaryDirectory(prefix="c07_", dir=os.path.join(common.VERIF, "work")) as td:
+        for name, text in (("unknown-characters", "@" * 12000), ("bad-numbers", "1.a " * (1500 if q else 4000))):
+            with open(os.path.join(td, "w.ns"), "w") as f:
+                f.write(text)
+            try:
+                pr = subprocess.run([naija, "w.ns"], cwd=td, capture_output=True, timeout=600)
+                bad = pr.returncode < 0 or pr.returncode > 1 or b"memory allocation" in pr.stderr or b"panicked" in pr.stderr
+                what = (pr.stderr.decode(errors="replace").strip().splitlines() or [""])[0][:200]
+            except subprocess.TimeoutExpired:
+                bad, what = True, "no result within 10 minutes"
+            if bad:
+                v.finding("report-wide-line:" + name, "the shipped binary fails to report the diagnostics of one long line (%s): %s" % (name, what), {"text": text[:64] + "...", "minimal": text[:8], "detail": what})
     render_info = renderer_conformance(rnd.sample(texts[:n_sweep], min(n_sweep, 1500 if q else 8000)) + rnd.sample(texts[n_sweep:n_sweep + n_mut + n_rand], 300 if q else 2000))
     v.coverage = {"states": states, "transitions": transitions, "traces_validated_against_impl": counts["ok"],
                   "renderer_conformance_(information_only)": render_info,
